@@ -59,6 +59,19 @@ func init() {
 		}
 		sort.Strings(items)
 		out.f("def bankSyncGuards : List String := %s\n", leanStrList(items))
+		// syncStateDBEarlyReturns: the conditions under which SyncStateDBWithAccount returns without touching the StateDB, in
+		// source order (no designated StateDB; an address that has no 20-byte EVM counterpart)
+		var early []string
+		if fd := findFunc(repo, "x/evm/keeper", "NibiruBankKeeper.SyncStateDBWithAccount"); fd != nil {
+			for _, st := range fd.Body.List {
+				if is, ok := st.(*ast.IfStmt); ok && len(is.Body.List) == 1 {
+					if _, ok := is.Body.List[0].(*ast.ReturnStmt); ok {
+						early = append(early, exprString(is.Cond))
+					}
+				}
+			}
+		}
+		out.f("def syncStateDBEarlyReturns : List String := %s\n", leanStrList(early))
 		return nil
 	}
 }
